@@ -50,7 +50,7 @@ def compare(res: dict, model: dict) -> str | None:
 def main() -> None:
     run = Run("C03", "proof")
     run.forbid()
-    run.require_vo(["Comp/Passes.v", "Comp/Closed.v"])
+    run.require_vo(["Comp/Passes.v", "Comp/Closed.v", "Comp/StripShape.v"])
     run.props("Props/TablesAgree.v")
     run.props("Props/C03.v")
     q = run.tier == "quick"
